@@ -202,6 +202,250 @@ def g_eos():
     return methods_group('nohblackboxeos/equations_of_state/eos_library.py', 'EosLibrary', specs)
 
 
+@group('blake')
+def g_blake():
+    """Blake._run: the fields as functions of the intermediate quantities cl, n, b, k1 (kept, not inlined) and those
+    quantities as functions of the parameters"""
+    from gen import translate_method, strip_nan, nan_cond
+    from py2coq import Solution, free_vars, coq_name, coq_prop, cnot, cand
+    mod = Module(os.path.join(S, 'blake/blake.py'))
+    helpers = {'amin': lambda i, a, k, n: a[0],
+               'greater_equal': lambda i, a, k, n: ('ge', i.want_expr(a[0], n), i.want_expr(a[1], n)),
+               'greater': lambda i, a, k, n: ('gt', i.want_expr(a[0], n), i.want_expr(a[1], n)),
+               'ExactSolution': lambda i, a, k, n: Solution(a[0], k.get('names'))}
+    keep = ['cl', 'n', 'b', 'k1']
+    ret, interp = translate_method(mod, 'Blake', '_run', ['radii', 'tsnap'], [], frozen_self=False, extra_helpers=helpers, keep=keep)
+    if not isinstance(ret, Solution):
+        raise Unsupported('Blake._run does not return ExactSolution')
+    text = HEADER % 'exactpack/solvers/blake/blake.py'
+    js = {}
+    order = ['cl', 'n', 'b', 'k1']
+    for nm in order:
+        e = interp.kept[nm]
+        args = sorted(free_vars(e))
+        text += '\n' + emit_function('blake_' + nm, args, e, comment='Blake._run local %s' % nm)
+        text += '#[global] Hint Unfold blake_%s : epgen.\n' % nm
+        js['blake_' + nm] = {'args': args, 'expr': expr_to_json(e)}
+    dom = ('true',)
+    for (path, exc, msg, ln) in interp.raises:
+        dom = cand(dom, cnot(path))
+    for nm, e in zip(ret.names, ret.data):
+        e = strip_nan(e)
+        cn = coq_name(nm)
+        args = sorted(free_vars(e))
+        text += '\n' + emit_function('blake_' + cn, args, e, comment='Blake field %s' % nm)
+        text += '#[global] Hint Unfold blake_%s : epgen.\n' % cn
+        js['blake_' + cn] = {'args': args, 'expr': expr_to_json(e)}
+    text += '\nDefinition blake_fields : list string := [%s].\n' % '; '.join('"%s"%%string' % n_ for n_ in ret.names)
+    return {'Blake': (text, js)}
+
+
+@group('elastic')
+def g_elastic():
+    """blake/set_check_elastic_params.set_elastic_params: the fifteen `prmcase` blocks.  The function keeps its
+    working variables in a dict filled through exec(); the translator rewrites ns['x'] to a plain local x, reads the
+    (eky0, eky1) -> prmcase dispatch chain to learn which two variables each case is given, builds one synthetic
+    function per case (given values, the case block, the bulk/longitudinal completion at the end) and translates it
+    with the ordinary interpreter.  Output per case: the six parameters as functions of the two given values and the
+    acceptance condition (conjunction of the negated raise paths)."""
+    import copy
+    from py2coq import free_vars, coq_prop, cnot, cand, Interp, Raised
+    path = os.path.join(S, 'blake/set_check_elastic_params.py')
+    mod = Module(path)
+    fn = mod.funcs['set_elastic_params']
+    VARS = ['plda', 'pg', 'pe', 'pnu', 'pk', 'pm']
+
+    class NS(ast.NodeTransformer):
+        def visit_Subscript(self, n):
+            self.generic_visit(n)
+            if isinstance(n.value, ast.Name) and isinstance(n.slice, ast.Constant) and isinstance(n.slice.value, str):
+                if n.value.id == 'ns':
+                    return ast.copy_location(ast.Name(id=n.slice.value, ctx=n.ctx), n)
+                if n.value.id == 'ivar_pnms':
+                    return ast.copy_location(ast.Constant(value='<' + n.slice.value + '>'), n)
+            return n
+
+    # internal variable order <-> external names (int_var_names zipped with elas_prm_names of class Blake)
+    ivn = None
+    for st in fn.body:
+        if isinstance(st, ast.Assign) and isinstance(st.targets[0], ast.Name) and st.targets[0].id == 'int_var_names':
+            ivn = [e.value for e in st.value.elts]
+    if ivn != VARS:
+        raise Unsupported('set_elastic_params: int_var_names is %r' % (ivn,))
+    bmod = Module(os.path.join(S, 'blake/blake.py'))
+    ext = None
+    for st in bmod.classes['Blake'].body:
+        if isinstance(st, ast.Assign) and isinstance(st.targets[0], ast.Name) and st.targets[0].id == 'elas_prm_names':
+            ext = [e.value for e in st.value.elts]
+    if ext is None or len(ext) != 6:
+        raise Unsupported('Blake.elas_prm_names not a 6-element literal list')
+    # the return statement must zip elas_prm_names with the six internal variables in order
+    last = fn.body[-1]
+    ok = isinstance(last, ast.Return) and isinstance(last.value, ast.Call) and getattr(last.value.func, 'id', '') == 'dict'
+    if ok:
+        z = last.value.args[0]
+        ok = isinstance(z, ast.Call) and getattr(z.func, 'id', '') == 'zip' and getattr(z.args[0], 'id', '') == 'elas_prm_names' \
+            and isinstance(z.args[1], ast.List) and [getattr(NS().visit(copy.deepcopy(e)), 'id', None) for e in z.args[1].elts] == VARS
+    if not ok:
+        raise Unsupported('set_elastic_params: unexpected return statement (line %d)' % last.lineno)
+
+    # dispatch chain: if eky0 == '<name>': ns[v0] = elas_prm_args[eky0]; if eky1 == '<name>': prmcase = N; ns[v1] = ...
+    cases = {}
+    chain = None
+    big = None
+    for st in fn.body:
+        if isinstance(st, ast.If) and isinstance(st.test, ast.Compare) and isinstance(st.test.left, ast.Name):
+            if st.test.left.id == 'eky0':
+                chain = st
+            if st.test.left.id == 'prmcase':
+                big = st
+    if chain is None or big is None:
+        raise Unsupported('set_elastic_params: dispatch / prmcase chains not found')
+
+    def sub_name(n):
+        n = NS().visit(copy.deepcopy(n))
+        return n.id if isinstance(n, ast.Name) else None
+
+    def walk_chain(node, key):
+        out = []
+        while True:
+            if not (isinstance(node.test, ast.Compare) and node.test.left.id == key and isinstance(node.test.ops[0], ast.Eq)):
+                raise Unsupported('set_elastic_params: dispatch test line %d' % node.lineno)
+            out.append((node.test.comparators[0].value, node.body))
+            if len(node.orelse) == 1 and isinstance(node.orelse[0], ast.If):
+                node = node.orelse[0]
+            elif not node.orelse:
+                return out
+            else:
+                raise Unsupported('set_elastic_params: dispatch else line %d' % node.lineno)
+    for name0, body0 in walk_chain(chain, 'eky0'):
+        if not (isinstance(body0[0], ast.Assign) and len(body0) == 2 and isinstance(body0[1], ast.If)):
+            raise Unsupported('set_elastic_params: dispatch body for %s' % name0)
+        v0 = sub_name(body0[0].targets[0])
+        for name1, body1 in walk_chain(body0[1], 'eky1'):
+            if not (len(body1) == 2 and isinstance(body1[0], ast.Assign) and body1[0].targets[0].id == 'prmcase'):
+                raise Unsupported('set_elastic_params: dispatch inner body for %s,%s' % (name0, name1))
+            N = body1[0].value.value
+            v1 = sub_name(body1[1].targets[0])
+            if ext[VARS.index(v0)] != name0 or ext[VARS.index(v1)] != name1:
+                raise Unsupported('set_elastic_params: case %d stores %s,%s for %s,%s' % (N, v0, v1, name0, name1))
+            cases[N] = (v0, v1, name0, name1)
+    if sorted(cases) != list(range(15)):
+        raise Unsupported('set_elastic_params: cases found %r' % sorted(cases))
+    blocks = {}
+    for cval, body in walk_chain(big, 'prmcase'):
+        blocks[cval] = body
+    if sorted(blocks) != list(range(15)):
+        raise Unsupported('set_elastic_params: prmcase blocks %r' % sorted(blocks))
+    tol = [st for st in fn.body if isinstance(st, ast.Assign) and isinstance(st.targets[0], ast.Name) and st.targets[0].id in ('abstol', 'reltol')]
+    # completion of pk / pm after the chain
+    tail = [st for st in fn.body if isinstance(st, ast.If) and isinstance(st.test, ast.Call) and getattr(st.test.func, 'id', '') == 'isinstance']
+    comp = {}
+    for st in tail:
+        v = sub_name(st.test.args[0])
+        comp[v] = [NS().visit(copy.deepcopy(x)) for x in st.body]
+    if sorted(comp) != ['pk', 'pm']:
+        raise Unsupported('set_elastic_params: completion statements %r' % sorted(comp))
+
+    def h_isclose(interp, args, kwargs, n):
+        a, b = interp.want_expr(args[0], n), interp.want_expr(args[1], n)
+        rt, at = interp.want_expr(kwargs['rtol'], n), interp.want_expr(kwargs['atol'], n)
+        return ('le', ('abs', ('sub', a, b)), ('add', at, ('mul', rt, ('abs', b))))
+    # restrictions on the given values: `for ky in elas_prm_args:` loop, translated once per parameter name
+    loop = [st for st in fn.body if isinstance(st, ast.For) and getattr(st.target, 'id', '') == 'ky' and getattr(st.iter, 'id', '') == 'elas_prm_args']
+    if len(loop) != 1:
+        raise Unsupported('set_elastic_params: restriction loop over elas_prm_args not found')
+
+    class KY(ast.NodeTransformer):
+        def visit_Subscript(self, n):
+            if isinstance(n.value, ast.Name) and n.value.id == 'elas_prm_args' and getattr(n.slice, 'id', '') == 'ky':
+                return ast.copy_location(ast.Name(id='x', ctx=ast.Load()), n)
+            return self.generic_visit(n)
+    given_ok = {}
+    for name in ext:
+        body = [KY().visit(copy.deepcopy(x)) for x in loop[0].body] + [ast.parse('return x').body[0]]
+        f = ast.FunctionDef(name='elastic_given', args=ast.arguments(posonlyargs=[], args=[ast.arg(arg='x')], kwonlyargs=[], kw_defaults=[], defaults=[]), body=body, decorator_list=[])
+        ast.fix_missing_locations(f)
+        interp = Interp(mod, {})
+        try:
+            interp.exec_body(f.body, {'x': ('var', 'x'), 'ky': name})
+        except Raised:
+            raise Unsupported('set_elastic_params: restriction on %s always raises' % name)
+        c = ('true',)
+        for (pth, exc, msg, ln) in interp.raises:
+            if exc != 'ValueError':
+                raise Unsupported('set_elastic_params: restriction on %s raises %s' % (name, exc))
+            c = cand(c, cnot(pth))
+        given_ok[name] = c
+    text = HEADER % 'exactpack/solvers/blake/set_check_elastic_params.py'
+    for name in ext:
+        text += '\n(* accepted range of a GIVEN %s *)\nDefinition elastic_given_%s (x : R) : Prop :=\n  %s.\n' % (name, name, coq_prop(given_ok[name]))
+    text += '\n(* external names of the six parameters, in the internal order plda pg pe pnu pk pm *)\n'
+    text += 'Definition elastic_names : list string := [%s].\n' % '; '.join('"%s"%%string' % e for e in ext)
+    js = {'names': ext, 'cases': {}, 'given_ok': {k: expr_to_json(v) for k, v in given_ok.items()}}
+    for N in range(15):
+        v0, v1, n0, n1 = cases[N]
+        body = [ast.parse('%s = g0' % v0).body[0], ast.parse('%s = g1' % v1).body[0]] + copy.deepcopy(tol)
+        body += [NS().visit(copy.deepcopy(x)) for x in blocks[N]]
+        assigned = {v0, v1}
+        for x in body:
+            for y in ast.walk(x):
+                if isinstance(y, ast.Name) and isinstance(y.ctx, ast.Store):
+                    assigned.add(y.id)
+        for v in ('plda', 'pg', 'pe', 'pnu'):
+            if v not in assigned:
+                raise Unsupported('set_elastic_params: case %d never sets %s' % (N, v))
+        for v in ('pk', 'pm'):
+            if v not in assigned:
+                body += copy.deepcopy(comp[v])
+        body.append(ast.parse('return (plda, pg, pe, pnu, pk, pm)').body[0])
+        f = ast.FunctionDef(name='elastic_case_%d' % N, args=ast.arguments(posonlyargs=[], args=[ast.arg(arg='g0'), ast.arg(arg='g1')], kwonlyargs=[], kw_defaults=[], defaults=[]), body=body, decorator_list=[])
+        ast.fix_missing_locations(f)
+        from py2coq import Func
+        mod.funcs[f.name] = f
+        interp = Interp(mod, {'isclose': h_isclose})
+        env = {'g0': ('var', 'g0'), 'g1': ('var', 'g1'), 'blk_dbg_prm': False, 'prmcase': num(N), 'eky0': n0, 'eky1': n1}
+        for v in VARS + ['ipr', 'ips']:
+            if v not in (v0, v1):
+                env[v] = ('var', 'UNSET_' + v)
+        try:
+            ret = interp.exec_body(f.body, env)
+        except Raised:
+            raise Unsupported('set_elastic_params case %d always raises' % N)
+        if not (isinstance(ret, (tuple, list)) and len(ret) == 6):
+            raise Unsupported('set_elastic_params case %d: result %r' % (N, ret))
+        dom = ('true',)
+        for (pth, exc, msg, ln) in interp.raises:
+            if exc != 'ValueError':
+                raise Unsupported('set_elastic_params case %d raises %s (line %d)' % (N, exc, ln))
+            dom = cand(dom, cnot(pth))
+        if set(free_vars(dom)) - {'g0', 'g1'}:
+            raise Unsupported('set_elastic_params case %d: acceptance condition mentions %r' % (N, free_vars(dom)))
+        text += '\n(* prmcase %d: given %s (g0) and %s (g1) *)\n' % (N, n0, n1)
+        text += 'Definition elastic_%d_pre (g0 g1 : R) : Prop := elastic_given_%s g0 /\\ elastic_given_%s g1.\n' % (N, n0, n1)
+        text += 'Definition elastic_%d_ok (g0 g1 : R) : Prop :=\n  %s.\n' % (N, coq_prop(dom))
+        # every division / square root the case evaluates, with the path condition under which it is reached
+        dconds = []
+        for (pth, c, ln, nr) in interp.partial:
+            for (rp, _e, _m, _l) in interp.raises[:nr]:
+                pth = cand(pth, cnot(rp))            # reached only when none of the earlier raise paths was taken
+            if set(free_vars(c[1])) - {'g0', 'g1'} or (pth != ('true',) and set(free_vars(pth)) - {'g0', 'g1'}):
+                raise Unsupported('set_elastic_params case %d: partial operation at line %d mentions an unset variable' % (N, ln))
+            item = coq_prop(c) if pth == ('true',) else '(%s -> %s)' % (coq_prop(pth), coq_prop(c))
+            if item not in [d[0] for d in dconds]:
+                dconds.append((item, pth, c, ln))
+        text += '(* the divisions and square roots case %d evaluates are defined (no ZeroDivisionError, no complex value) *)\n' % N
+        text += 'Definition elastic_%d_defined (g0 g1 : R) : Prop :=\n  %s.\n' % (N, ' /\\\n  '.join(d[0] for d in dconds) if dconds else 'True')
+        cj = {'given': [n0, n1], 'given_vars': [v0, v1], 'ok': expr_to_json(dom), 'out': {},
+              'defined': [[expr_to_json(d[1]), expr_to_json(d[2]), d[3]] for d in dconds]}
+        for v, e in zip(VARS, ret):
+            text += emit_function('elastic_%d_%s' % (N, v), ['g0', 'g1'], e)
+            text += '#[global] Hint Unfold elastic_%d_%s : epgen.\n' % (N, v)
+            cj['out'][v] = expr_to_json(e)
+        js['cases'][str(N)] = cj
+    return {'Elastic': (text, js)}
+
+
 @group('radshock')
 def g_radshock():
     """travelling-wave structure of the radiative-shock wrappers' _run (np.interp on flipped profile arrays with
